@@ -3,7 +3,7 @@
    netqasm.backend.executor.Executor (correspondence + oracle of C04).
    No proofs in this file. *)
 From Coq Require Import ZArith List Bool.
-From NQ Require Import Exec.State Exec.Sem Exec.Exec.
+From NQ Require Import Exec.State Exec.Sem Exec.Exec Exec.SemQ.
 Import ListNotations.
 Open Scope Z_scope.
 
@@ -131,3 +131,49 @@ Fixpoint indices_where {A} (f : A -> bool) (l : list A) (i : Z) : list Z :=
 Definition exec_failing (cs : list ecase) : list Z := indices_where (fun c => negb (check_exec c)) cs 0.
 Definition sem_failing (cs : list ecase) : list Z := indices_where (fun c => check_sem c =? 2) cs 0.
 Definition sem_open (cs : list ecase) : list Z := indices_where (fun c => check_sem c =? 1) cs 0.
+
+(* ------------------------------------------------------------------ SemQ vs the real Executor
+   (quantum extension points of the harness executor only record events; the
+   comparison covers the gate / measurement events, oldest first, besides the
+   classical state) *)
+Record qcase := mkQCase {
+  qc_cap : nat;
+  qc_fuel : nat;
+  qc_script : list Z;
+  qc_subs : list (list qinstr);
+  qc_expect : list (expect * list qevent)
+}.
+
+Definition is_gm (e : qevent) : bool :=
+  match e with QEvGate _ _ _ | QEvMeas _ _ => true | _ => false end.
+
+Definition qevent_eqb (a b : qevent) : bool :=
+  match a, b with
+  | QEvGate t i q, QEvGate t' i' q' => (t =? t') && list_eqb Z.eqb i i' && list_eqb Z.eqb q q'
+  | QEvMeas q o, QEvMeas q' o' => (q =? q') && (o =? o')
+  | _, _ => false
+  end.
+
+Definition qresult_matches (r : qresult) (x : expect * list qevent) : bool :=
+  match r with
+  | (s, pc, o) =>
+      result_matches (q_st s, pc, o) (fst x) &&
+      list_eqb qevent_eqb (rev (filter is_gm (q_trace s))) (snd x)
+  end.
+
+(* 0 agree, 1 agree up to open behaviour, 2 disagree inside the domain *)
+Fixpoint semq_walk (subs : list (list qinstr)) (s : qstate) (fuel : nat) (xs : list (expect * list qevent)) : Z :=
+  match subs, xs with
+  | [], [] => 0
+  | p :: ps, x :: xs' =>
+      let r := qrun p s fuel in
+      if is_unspec (snd r) then 1
+      else if qresult_matches r x then semq_walk ps (fst (fst r)) fuel xs' else 2
+  | _, _ => 2
+  end.
+
+Definition check_semq (c : qcase) : Z :=
+  semq_walk (qc_subs c) (mkQ (init_state (qc_cap c)) (qc_script c) []) (qc_fuel c) (qc_expect c).
+
+Definition semq_failing (cs : list qcase) : list Z := indices_where (fun c => check_semq c =? 2) cs 0.
+Definition semq_open (cs : list qcase) : list Z := indices_where (fun c => check_semq c =? 1) cs 0.
